@@ -60,22 +60,22 @@ type ForkGroup struct {
 }
 
 type Eval struct {
-	P           *Prog
-	Groups      map[string][]*ForkGroup // by node
-	Insts       []*Inst
-	Problems    []Violation
-	Rejected    string // non-empty: the program is invalid at run time (not a violation)
-	Ambiguous   int
-	Incomplete  bool // evaluation could not be completed (after a reported problem)
-	NDisabled   int
-	NStaticNull int
-	NNested     int
+	P            *Prog
+	Groups       map[string][]*ForkGroup // by node
+	Insts        []*Inst
+	Problems     []Violation
+	Rejected     string // non-empty: the program is invalid at run time (not a violation)
+	Ambiguous    int
+	Incomplete   bool // evaluation could not be completed (after a reported problem)
+	NDisabled    int
+	NStaticNull  int
+	NNested      int
 	NNestedEmpty int // a map call inside a map-called pipeline whose own source was empty or null for some outer element
-	NMapped     int
-	NEmptyMap   int
-	NNarrow     int
-	NProj       int
-	NShared     int
+	NMapped      int
+	NEmptyMap    int
+	NNarrow      int
+	NProj        int
+	NShared      int
 	// node paths of pipeline calls that were mapped over an empty or null
 	// collection (or disabled): nothing below them should execute
 	EmptyMapped    []string
